@@ -150,6 +150,29 @@ theorem walkMut_acts (fwd : Bool) (act : St → Nat → St) (f : Nat) (s : St) (
       (act s e, valueOf s e :: (if fwd then walkF (act s e) f (nextOf (act s e) e) else walkB (act s e) f (prevOf (act s e) e))) := by
   cases fwd <;> simp [walkMut, he, walkMut_zero]
 
+/-- a callback that would act at a call the traversal never makes (beyond the end of the list) changes nothing -/
+theorem walkMut_beyond (fwd : Bool) (act : St → Nat → St) (f k : Nat) (s : St) (e : Nat)
+    (h : (if fwd then walkF s f e else walkB s f e).length < k) :
+    walkMut fwd act f k s e = (s, if fwd then walkF s f e else walkB s f e) := by
+  induction f generalizing k e with
+  | zero => cases fwd <;> simp [walkMut, walkF, walkB]
+  | succ f ih =>
+    by_cases he : e = 0
+    · subst he; cases fwd <;> simp [walkMut, walkF, walkB]
+    · cases fwd
+      · simp only [walkB, he, if_false, List.length_cons, Bool.false_eq_true] at h
+        obtain ⟨k', rfl⟩ : ∃ k', k = k' + 2 := ⟨k - 2, by omega⟩
+        have := ih (k' + 1) (prevOf s e) (by simp; omega)
+        rw [walkMut_before false act f k' s e he]
+        simp at this ⊢
+        rw [this]; simp [walkB, he]
+      · simp only [walkF, he, if_false, List.length_cons, if_true] at h
+        obtain ⟨k', rfl⟩ : ∃ k', k = k' + 2 := ⟨k - 2, by omega⟩
+        have := ih (k' + 1) (nextOf s e) (by simp; omega)
+        rw [walkMut_before true act f k' s e he]
+        simp at this ⊢
+        rw [this]; simp [walkF, he]
+
 /-! ## the wrapper protocol -/
 namespace TS
 variable {σ O R : Type}
